@@ -56,7 +56,14 @@ def run(chk, repo, tier):
             nsinks = 0
             for p in paths:
                 for ev in p.events:
-                    if ev["kind"] != "scalar_mul" or ev["scalar"] is not SK:
+                    if ev["kind"] != "scalar_mul":
+                        continue
+                    if ev["scalar"] is not SK:
+                        from ..term import subterms
+                        if isinstance(ev["scalar"], Term) and any(t is SK for t in subterms(ev["scalar"])):
+                            nsinks += 1
+                            bad.setdefault(ev["where"], (f"the scalar is {show(ev['scalar'])[:60]}, a conversion of the caller's key: keys of "
+                                                         "non-integer type are coerced instead of refused", p))
                         continue
                     nsinks += 1
                     facts = [(a, t) for a, t in ev["facts"].items()]
@@ -69,7 +76,7 @@ def run(chk, repo, tier):
                         bad.setdefault("raise:" + p.value.clsname(), (f"{p.value.clsname()} raised at {p.value.where} instead of ValidationError", p))
                 else:
                     # a returning path must have used the key under the gate
-                    if not any(ev["kind"] == "scalar_mul" and ev["scalar"] is SK for ev in p.events):
+                    if not any(ev["kind"] == "scalar_mul" for ev in p.events):
                         bad.setdefault("return-without-use", (f"returns {show(p.value)[:100]} without using the key", p))
             if nsinks == 0:
                 raise AnalysisError(f"{construct}: no scalar multiplication by the secret key found")
